@@ -96,7 +96,7 @@ int rtr_bgpsec_validate_as_path(const struct rtr_bgpsec *data, struct spki_table
 	int tmp_sig_len = 0;
 
 	/* Check, if the parameters are not NULL */
-	if (!data || !data->path || !data->sigs || !table)
+	if (!data || !data->path || !data->sigs || !data->nlri || !table)
 		return RTR_BGPSEC_INVALID_ARGUMENTS;
 
 	/* Check, if there are as many signature segments as there are
@@ -284,7 +284,7 @@ int rtr_bgpsec_generate_signature(const struct rtr_bgpsec *data, uint8_t *privat
 	/* Check, if the parameters are not NULL except for *new_signature,
 	 * which must be NULL.
 	 */
-	if (!data || !data->path || !private_key || *new_signature)
+	if (!data || !data->path || !data->nlri || !private_key || *new_signature)
 		return RTR_BGPSEC_INVALID_ARGUMENTS;
 
 	/* Make sure the algorithm suite is supported. */
